@@ -82,6 +82,9 @@ def program(draw):
              "remote": draw(st.integers(0, 3)) if kind[1] == "c" else ("index" if kind[1] == "i" else "worktree"),
              "cwd": draw(st.sampled_from(DIRS)),
              "paths": draw(st.sampled_from([None, None, ["."], ["sub"], ["deep"], ["a.ipynb"], ["c.ipynb"], ["sub/c.ipynb", "b.ipynb"]]))}
+        # the same comparison through the command line (`nbdiff <ref> [<ref>] [<path>...]`): brings the ref-vs-path
+        # disambiguation of the arguments under the same oracle (the index cannot be named on the command line)
+        q["cli"] = kind in ("cc", "cw") and draw(st.sampled_from([True, False, False]))
         queries.append(q)
     return {"ops": ops, "queries": queries}
 
@@ -205,6 +208,34 @@ def oracle(repo, q, cwd):
     return pairs
 
 
+def cli_pairs(q):
+    """Pairs handed to nbdiff's per-file handler when the comparison is asked for on the command line."""
+    import io
+    import sys
+    from nbdime import nbdiffapp
+    argv = [q["base_ref"]]
+    if q["remote_ref"] != "worktree":
+        argv.append(q["remote_ref"])
+    argv += list(q["paths"] or [])
+    got = []
+
+    def record(base, remote, output, args):
+        got.append((base, remote))
+        return 0
+    saved = (nbdiffapp._handle_diff, sys.argv[:], sys.stdout, sys.stderr)
+    nbdiffapp._handle_diff = record
+    sys.argv[:] = ["nbdiff"]
+    sys.stdout, sys.stderr = io.StringIO(), io.StringIO()
+    try:
+        parser = nbdiffapp._build_arg_parser()
+        rc = nbdiffapp.main_diff(parser.parse_args(argv))
+        if rc != 0:
+            raise RuntimeError("nbdiff returned %r" % (rc,))
+    finally:
+        nbdiffapp._handle_diff, sys.argv[:], sys.stdout, sys.stderr = saved
+    return got
+
+
 def run_case(case):
     out = Outcome()
     repo = Repo()
@@ -242,7 +273,12 @@ def run_case(case):
             try:
                 rb = GitRefIndex if q["base_ref"] == "index" else q["base_ref"]
                 rr = GitRefIndex if q["remote_ref"] == "index" else (GitRefWorkingTree if q["remote_ref"] == "worktree" else q["remote_ref"])
-                for fa, fb in changed_notebooks(rb, rr, q["paths"]):
+                if q.get("cli"):
+                    out.count("queries_through_command_line")
+                    pairs_iter = cli_pairs(q)
+                else:
+                    pairs_iter = changed_notebooks(rb, rr, q["paths"])
+                for fa, fb in pairs_iter:
                     if os.path.realpath(os.getcwd()) != os.path.realpath(cwd) and cwd_moved is None:
                         cwd_moved = os.getcwd()
                     got.append(tuple(NULL if f == NULL else f.read() for f in (fa, fb)))
